@@ -96,6 +96,9 @@ func drawTelemetry(c *choice.Stream, cf *Conf) *SPacket {
 // drawQueryScenario draws a select or an insert with its fault-free script.
 func drawQueryScenario(c *choice.Stream, cf *Conf) *queryScenario {
 	sc := &queryScenario{cf: cf, rec: &Recorder{}}
+	if c.Bool("q.logger", 1, 4) {
+		sc.query.Logger = debugLogger() // a query-scoped logger replaces the client's for the duration of the call
+	}
 	sc.script = cf.HandshakeSteps()
 	sc.afterHandshake = len(sc.script)
 	await := func(label string) {
